@@ -137,7 +137,38 @@ def stopPrefix (ev : List Ev) : Bool :=
       else (startedMids ev).all fun m => match acceptedIdx ev m with | some i => decide (i < k) | none => false
     | _, _ => true
 
-def ok (t : Trace) : Bool := fifo t.ev && idxInOrder t.ev && stopPrefix t.ev
+def isKillIssued : Ev → Bool | .issued _ .kill _ _ => true | _ => false
+def isStopIssued : Ev → Bool | .issued _ .stop _ _ => true | _ => false
+def isCrash : Ev → Bool
+  | .handlerEnd _ .panic => true | .runEnd _ .err => true | .runEnd _ .panic => true | _ => false
+
+/-- the statement at the level of calls: on an actor that is not killed and does not crash, every message
+    accepted before the first `stop()` call began has its handler started before `on_stop` -/
+def stopCallOrder (ev : List Ev) : Bool :=
+  match idxOf? isStopStart ev with
+  | none => true
+  | some p =>
+    if anyBefore isKillIssued ev p || anyBefore isCrash ev p then true
+    else match idxOf? isStopIssued ev with
+      | none => true
+      | some q =>
+        if q < p then
+          (ev.take q).all fun
+            | .accepted m _ => if isEnvOp ev m then anyBefore (isStart m) ev p else true
+            | _ => true
+        else true
+
+/-- nothing issued after a `stop()` call returned is ever handled -/
+def nothingAfterStopReturned (ev : List Ev) : Bool :=
+  match idxOf? (fun | .ret o _ _ => isStopOp ev o | _ => false) ev with
+  | none => true
+  | some q =>
+    (ev.drop q).all fun
+      | .issued m _ _ _ => !(ev.any (isStart m))
+      | _ => true
+
+def ok (t : Trace) : Bool :=
+  fifo t.ev && idxInOrder t.ev && stopPrefix t.ev && stopCallOrder t.ev && nothingAfterStopReturned t.ev
 end C02
 
 /-! ### C03 — reply belongs to the request; nothing pending on an ended actor -/
